@@ -44,6 +44,10 @@ fn absent_sets() -> Vec<(String, Vec<Fault>)> {
         v.push((format!("clone={}", n), vec![absent("ioctl:FICLONE", e)]));
     }
     v.push(("fiemap=EOPNOTSUPP".into(), vec![absent("ioctl:FIEMAP", EOPNOTSUPP)]));
+    // a file system without SEEK_DATA / SEEK_HOLE answers EINVAL
+    v.push(("seekdata=EINVAL".into(), vec![absent("lseek:DATA", EINVAL)]));
+    v.push(("seekhole=EINVAL".into(), vec![absent("lseek:HOLE", EINVAL)]));
+    v.push(("seekdata+seekhole=EINVAL".into(), vec![absent("lseek:DATA", EINVAL), absent("lseek:HOLE", EINVAL)]));
     v.push(("cfr=ENOSYS+fiemap=EOPNOTSUPP".into(), vec![absent("copy_file_range", ENOSYS), absent("ioctl:FIEMAP", EOPNOTSUPP)]));
     v
 }
@@ -100,7 +104,7 @@ pub fn run(ctx: &Ctx) -> Report {
         "files of 1..10 bytes (and 4KiB-unit data/hole layouts) x block sizes {3, n, usize::MAX} x both drivers: a recording run lists every data-moving call; one execution of the real binary per (call occurrence, legal short count 1..requested-1) with the length register clamped so the kernel really performs the shorter transfer; 'small kernel' runs clamp every call; facility-absent runs answer copy_file_range/FICLONE/FIEMAP with ENOSYS/EXDEV/EPERM/EOPNOTSUPP/EINVAL and are combined with every single clamp and read->EINTR on the user-space fallback; the same for a build without the Linux backend; oracle: exit 0 => byte-exact destination; non-trivial = the altered call was reached, counted per distinct trace",
     );
     let j: Judge = &judge;
-    let w = Worker::new(49, &ctx.pool.bins);
+    let w = Worker::new(149, &ctx.pool.bins);
     let mut errs = vec![];
     let q = ctx.quick();
     let progs: Vec<(Prog, &str)> = if ctx.pool.bins.xcp_nolinux.is_empty() { vec![(Prog::Xcp, "linux")] } else { vec![(Prog::Xcp, "linux"), (Prog::XcpNoLinux, "nolinux")] };
@@ -159,7 +163,7 @@ pub fn run(ctx: &Ctx) -> Report {
                     let clamps = |req: u64| -> Vec<u64> { vec![1, 5, 4095, 4096, 5000, req.saturating_sub(1)] };
                     jobs.extend(clamp_jobs(&w, &s, &[], &clamps, false, &mut errs));
                     if *prog == Prog::Xcp {
-                        for (_, faults) in absent_sets().into_iter().filter(|a| q == false || a.0.starts_with("cfr=ENOSYS") || a.0.starts_with("fiemap")) {
+                        for (_, faults) in absent_sets().into_iter().filter(|a| q == false || a.0.starts_with("cfr=ENOSYS") || a.0.starts_with("fiemap") || a.0.starts_with("seek")) {
                             jobs.extend(clamp_jobs(&w, &s, &faults, &clamps, true, &mut errs));
                         }
                     }
@@ -174,6 +178,15 @@ pub fn run(ctx: &Ctx) -> Report {
         }
         let st = explore(&ctx.pool, jobs, j);
         rep.part(&format!("[{}] data/hole layouts (4 KiB units): selected short counts, small-kernel runs, facility absent", pname), st, serde_json::json!({"layouts": layouts.iter().map(|l| format!("{:?}+{}", l.0, l.1)).collect::<Vec<_>>()}));
+    }
+    // the fallback under every schedule with at most d deviations: the block jobs of one file share two descriptors,
+    // so a fallback that is correct for one thread need not be for two
+    {
+        let cj: Judge = &c06::judge;
+        for (name, jobs) in sets::schedule_jobs_level(if q { 0 } else { 2 }, &|s| s).into_iter().filter(|(n, _)| n.starts_with("copy_file_range absent")) {
+            let st = crate::explore::explore(&ctx.pool, jobs, cj);
+            rep.part(&format!("schedule search: {}", name), st, serde_json::json!({"policies": ["P0", "P1"]}));
+        }
     }
     rep.machinery_errors.extend(errs);
     rep.assumptions = vec![
